@@ -24,7 +24,13 @@ for f in "${INSTR[@]}"; do f=${f//@MODCACHE@/$MODCACHE}; args+=(-instr "$f"); do
 for r in "${EXTRA_REPLACE[@]}"; do r=${r//@MODCACHE@/$MODCACHE}; args+=(-replace "$r"); done
 /verif/.bin/vinstr "${args[@]}" || { echo "ENGINE-ERROR: instrumentation failed"; exit 2; }
 bin=$OUT/.bin/$id
-(cd /verif/h && go build -tags verif -overlay "$work/overlay.json" -o "$bin" ./$(basename $dir)) > "$work/build.log" 2>&1
+RACEFLAG=""
+if [ "$tier" = race ]; then
+  # informational pass (not a registered check): harness bodies free-running under the race detector; reports go to $OUT/race/
+  export CGO_ENABLED=1; RACEFLAG="-race"; bin=$OUT/.bin/$id-race; mkdir -p $OUT/race; rm -f $OUT/race/$id.*
+  export VERIF_RACE=1 GORACE="log_path=$OUT/race/$id halt_on_error=0" VERIF_OUT=${VERIF_OUT:-/var/tmp/scr}
+fi
+(cd /verif/h && go build $RACEFLAG -tags verif -overlay "$work/overlay.json" -o "$bin" ./$(basename $dir)) > "$work/build.log" 2>&1
 if [ $? -ne 0 ]; then
   cat "$work/build.log" | tail -40
   echo "ENGINE-ERROR: build of $id against $REPO failed"
@@ -34,7 +40,8 @@ fi
 ulimit -v 40000000 2>/dev/null
 cd /verif
 hard=900; [ "$tier" = thorough ] && hard=5400
-timeout -k 10 ${VERIF_HARD_TIMEOUT:-$hard} "$bin" "$tier" "$@"
+runtier=$tier; [ "$tier" = race ] && runtier=quick
+timeout -k 10 ${VERIF_HARD_TIMEOUT:-$hard} "$bin" "$runtier" "$@"
 rc=$?
 if [ $rc -eq 124 ] || [ $rc -eq 137 ]; then echo "ENGINE-ERROR: $id exceeded the hard wall-clock limit of ${VERIF_HARD_TIMEOUT:-$hard}s and was stopped"; pkill -f "^$bin" 2>/dev/null; exit 2; fi
 exit $rc
